@@ -132,6 +132,9 @@ UUID_FORMS = [
 VERSIONS = [[1], [1, 2, 3], [0, 0, 0, 0], [1, 0, -1, 2], [300, 65536, -3], "1", "1.2.3", "10.0.300", "1.2.3-rc", "1.2.3-rc.1",
             "0.1-alpha", "2.0-beta.24", "1.0.0-alpha.255"]
 PARTS = ["M", "I", "z", "MEM", "INSTLD_MFST", "CAND_IMG", "AB", "X" * 23, "X" * 24, 0, 23, 24, 255, 256, 65536, -1, -25, 2**64 - 1] + UUID_FORMS
+# one-character parts are a byte string holding the character (not a wrapped text string), whatever the character: digits, punctuation,
+# blank, DEL, and characters whose UTF-8 form has 2, 3 or 4 bytes; two-character strings are wrapped text
+ONE_CHAR_PARTS = list("0 9#-_.~\x7f\u00e9\u00df\u00ff\u0416\u20ac\U0001d11e") + ["\u00e9\u00e9", "\u20acM", "M\U0001d11e"]
 
 
 def hdr_variants():
@@ -280,6 +283,12 @@ def sweep_cases():
     for p in PARTS:
         yield minimal(common={"suit-components": [[p]]})
         yield minimal(man={"suit-manifest-component-id": [p]})
+    for p in ONE_CHAR_PARTS:
+        yield minimal(common={"suit-components": [[p], ["M", p, 1]]})
+        yield minimal(man={"suit-manifest-component-id": ["I", p]})
+        yield minimal(common={"suit-components": [["M"]], "suit-dependencies": {"0": {"suit-dependency-prefix": [p]}}})
+        yield minimal(man={"suit-text": {"suit-digest-algorithm-id": "cose-alg-sha-256"}},
+                      env={"suit-text": {"en": {json.dumps([p, 2]): {"suit-text-vendor-name": "v"}}}})
     for n in range(0, 4):
         yield minimal(common={"suit-components": [["M", i] for i in range(n)]})
     yield minimal(common={"suit-components": [[]]})
